@@ -143,32 +143,98 @@ func (b *BinaryExpression) SQL() string {
 	// by returning strings level by level copies the text of the left operand at
 	// every level (quadratic). Walk down the left spine instead and emit the chain
 	// into one builder.
-	if b.isPlainInfix() {
-		if l, ok := b.Left.(*BinaryExpression); ok && l != nil && l.isPlainInfix() && exprPrecedence(l) >= b.leftOperandMin() {
-			spine := []*BinaryExpression{b}
-			cur := l
-			for {
-				spine = append(spine, cur)
-				next, ok := cur.Left.(*BinaryExpression)
-				if !ok || next == nil || !next.isPlainInfix() || exprPrecedence(next) < cur.leftOperandMin() {
-					break
-				}
-				cur = next
-			}
-			sb := getBuilder()
-			defer putBuilder(sb)
-			sb.WriteString(operandSQL(cur.Left, cur.leftOperandMin()))
-			for i := len(spine) - 1; i >= 0; i-- {
-				n := spine[i]
-				sb.WriteString(" ")
-				sb.WriteString(n.operatorText())
-				sb.WriteString(" ")
-				sb.WriteString(operandSQL(n.Right, binaryOperatorPrecedence(strings.ToUpper(n.operatorText()))+1))
-			}
-			return sb.String()
-		}
+	if b.isPlainInfix() && isSpineNode(b.Left) {
+		return leftSpineSQL(b)
 	}
 	return b.sqlOneLevel()
+}
+
+// isSpineNode reports whether e is one of the forms whose text begins with the
+// text of an operand (infix operators, casts, subscripts, slices): the forms a
+// left-deep chain is made of.
+func isSpineNode(e Expression) bool {
+	switch v := e.(type) {
+	case *BinaryExpression:
+		return v != nil && v.isPlainInfix()
+	case *CastExpression:
+		return v != nil
+	case *ArraySubscriptExpression:
+		return v != nil
+	case *ArraySliceExpression:
+		return v != nil
+	}
+	return false
+}
+
+// leftSpineSQL serialises a left-deep chain of any mix of spine nodes through
+// one builder: the chain is walked down to its innermost operand, which is
+// printed first, and the suffix of every level is appended on the way back.
+func leftSpineSQL(e Expression) string {
+	sb := getBuilder()
+	defer putBuilder(sb)
+	type level struct {
+		node  Expression
+		paren bool
+	}
+	var spine []level
+	cur, min := e, 0
+	for {
+		paren := exprPrecedence(cur) < min
+		if paren {
+			sb.WriteString("(")
+		}
+		spine = append(spine, level{cur, paren})
+		var inner Expression
+		switch v := cur.(type) {
+		case *BinaryExpression:
+			inner, min = v.Left, v.leftOperandMin()
+		case *CastExpression:
+			sb.WriteString("CAST(")
+			inner, min = v.Expr, 0
+		case *ArraySubscriptExpression:
+			inner, min = v.Array, precPrimary
+		case *ArraySliceExpression:
+			inner, min = v.Array, precPrimary
+		}
+		if !isSpineNode(inner) {
+			sb.WriteString(operandSQL(inner, min))
+			break
+		}
+		cur = inner
+	}
+	for i := len(spine) - 1; i >= 0; i-- {
+		switch v := spine[i].node.(type) {
+		case *BinaryExpression:
+			sb.WriteString(" ")
+			sb.WriteString(v.operatorText())
+			sb.WriteString(" ")
+			sb.WriteString(operandSQL(v.Right, binaryOperatorPrecedence(strings.ToUpper(v.operatorText()))+1))
+		case *CastExpression:
+			sb.WriteString(" AS ")
+			sb.WriteString(v.Type)
+			sb.WriteString(")")
+		case *ArraySubscriptExpression:
+			for _, idx := range v.Indices {
+				sb.WriteString("[")
+				sb.WriteString(exprSQL(idx))
+				sb.WriteString("]")
+			}
+		case *ArraySliceExpression:
+			sb.WriteString("[")
+			if v.Start != nil {
+				sb.WriteString(exprSQL(v.Start))
+			}
+			sb.WriteString(":")
+			if v.End != nil {
+				sb.WriteString(exprSQL(v.End))
+			}
+			sb.WriteString("]")
+		}
+		if spine[i].paren {
+			sb.WriteString(")")
+		}
+	}
+	return sb.String()
 }
 
 // operatorText returns the operator as it is printed.
@@ -361,26 +427,7 @@ func (c *CastExpression) SQL() string {
 		return ""
 	}
 	// nested casts (a::int::text::...) are emitted through one builder
-	chain := []*CastExpression{c}
-	for {
-		inner, ok := chain[len(chain)-1].Expr.(*CastExpression)
-		if !ok || inner == nil {
-			break
-		}
-		chain = append(chain, inner)
-	}
-	sb := getBuilder()
-	defer putBuilder(sb)
-	for range chain {
-		sb.WriteString("CAST(")
-	}
-	sb.WriteString(exprSQL(chain[len(chain)-1].Expr))
-	for i := len(chain) - 1; i >= 0; i-- {
-		sb.WriteString(" AS ")
-		sb.WriteString(chain[i].Type)
-		sb.WriteString(")")
-	}
-	return sb.String()
+	return leftSpineSQL(c)
 }
 
 func (c *CaseExpression) SQL() string {
@@ -583,40 +630,14 @@ func (a *ArraySubscriptExpression) SQL() string {
 		return ""
 	}
 	// a[1][2][3]... is a left-deep chain: emit it through one builder
-	chain := []*ArraySubscriptExpression{a}
-	for {
-		inner, ok := chain[len(chain)-1].Array.(*ArraySubscriptExpression)
-		if !ok || inner == nil {
-			break
-		}
-		chain = append(chain, inner)
-	}
-	sb := getBuilder()
-	defer putBuilder(sb)
-	sb.WriteString(operandSQL(chain[len(chain)-1].Array, precPrimary))
-	for i := len(chain) - 1; i >= 0; i-- {
-		for _, idx := range chain[i].Indices {
-			sb.WriteString("[")
-			sb.WriteString(exprSQL(idx))
-			sb.WriteString("]")
-		}
-	}
-	return sb.String()
+	return leftSpineSQL(a)
 }
 
 func (a *ArraySliceExpression) SQL() string {
 	if a == nil {
 		return ""
 	}
-	start := ""
-	end := ""
-	if a.Start != nil {
-		start = exprSQL(a.Start)
-	}
-	if a.End != nil {
-		end = exprSQL(a.End)
-	}
-	return fmt.Sprintf("%s[%s:%s]", operandSQL(a.Array, precPrimary), start, end)
+	return leftSpineSQL(a)
 }
 
 // GROUP BY advanced expressions
